@@ -102,3 +102,10 @@ Theorem c16_state_graph_exact :
   (forall a b, tedge a b = true -> realised a b).
 Proof. split; [exact run_edges|exact edges_realised]. Qed.
 Print Assumptions c16_state_graph_exact.
+
+(* a FIN that waited in the reorder heap is consumed by the data frame that fills the gap (a packet
+   WITHOUT the FIN flag): the state machine still moves initiated -> closeWait / finWait1 -> closing *)
+Example c16_fin_from_heap :
+  ts (fst (receive (sh_init true false) (mkF false ANone false true true))) = TCloseWait /\
+  ts (fst (receive (fst (do_close (sh_init true false))) (mkF false ANone false true true))) = TClosing.
+Proof. split; vm_compute; reflexivity. Qed.
